@@ -61,52 +61,11 @@ theorem f32_roundtrip_normal (b : Nat) (hb : b < 4294967296)
       · split <;> omega
       · omega
 
-/-! ### well-typed values of the fragment without named fields and maps -/
-
-mutual
-def WTp : TCode → Val → Bool
-  | .unit, .unit => true
-  | .u8, .u8 _ => true
-  | .int t, .int t' n => decide (t = t') && inRange t n
-  | .f32, .f32 b => f64to32 (f32to64 b) == b
-  | .f64, .f64 _ => true
-  | .bool, .bool _ => true
-  | .char, .char c => validChar c
-  | .string, .str _ => true
-  | .ordering, .ord o => decide (o ≤ 2)
-  | .option _, .none => true
-  | .option t, .some v => WTp t v
-  | .result t _, .ok v => WTp t v
-  | .result _ e, .err v => WTp e v
-  | .vec t, .vec vs => vs.all (fun v => WTp t v)
-  | .tuple ts, .tuple vs => WTps ts vs
-  | .newtype t, .newtype v => WTp t v
-  | .tstruct ts, .tstruct vs => WTps ts vs
-  | .ustruct, .ustruct => true
-  | .enum _ vars, .var i p => WTpv vars i p
-  | _, _ => false
-def WTps : List TCode → List Val → Bool
-  | [], [] => true
-  | t :: ts, v :: vs => WTp t v && WTps ts vs
-  | _, _ => false
-def WTpv : List TCode → Nat → Val → Bool
-  | .vunit :: _, 0, .vunit => true
-  | .vtuple ts :: _, 0, .vtuple vs => WTps ts vs
-  | _ :: vars, n + 1, p => WTpv vars n p
-  | _, _, _ => false
-end
+/-! ### list helpers -/
 
 theorem pushL_length : ∀ vs, (pushL vs).length = vs.length
   | [] => by simp [pushL]
   | v :: vs => by simp [pushL, pushL_length vs]
-
-theorem WTps_length : ∀ ts vs, WTps ts vs = true → vs.length = ts.length
-  | [], [], _ => rfl
-  | t :: ts, v :: vs, h => by
-    simp [WTps] at h
-    simp [WTps_length ts vs h.2]
-  | [], _ :: _, h => by simp [WTps] at h
-  | _ :: _, [], h => by simp [WTps] at h
 
 theorem mkArray_shape (xs : List GV) : ∃ r, mkArray xs = .array r xs := by
   cases xs with
@@ -122,115 +81,8 @@ theorem mapMOpt_pushL (f : GV → Option Val) :
     simp [pushL, mapMOpt, h1, h2]
 
 
-theorem WTpv_payload : ∀ (vars : List TCode) (i : Nat) (p : Val), WTpv vars i p = true →
-    p = .vunit ∨ ∃ vs, p = .vtuple vs
-  | [], i, p, h => by simp [WTpv] at h
-  | c :: vars, 0, p, h => by
-    cases c <;> cases p <;> simp [WTpv] at h <;> simp
-  | c :: vars, i + 1, p, h => by
-    have h' : WTpv vars i p = true := by
-      cases c <;> cases p <;> simp_all [WTpv]
-    exact WTpv_payload vars i p h'
-
 theorem getElem_pre (pre : List GV) (x : GV) (rest : List GV) :
     (pre ++ x :: rest)[pre.length]? = some x := by
   simp
-
-mutual
-theorem get_push : ∀ (c : TCode) (v : Val), WTp c v = true → get c (push v) = some v
-  | .unit, v, h => by cases v <;> simp [WTp] at h; simp [push, get]
-  | .u8, v, h => by cases v <;> simp [WTp] at h; simp [push, get]
-  | .int t, v, h => by
-    cases v <;> simp [WTp] at h
-    obtain ⟨rfl, h2⟩ := h
-    simp [push, get, int_roundtrip _ _ h2]
-  | .f32, v, h => by
-    cases v <;> simp [WTp] at h
-    simp [push, get, h]
-  | .f64, v, h => by cases v <;> simp [WTp] at h; simp [push, get]
-  | .bool, v, h => by
-    cases v <;> simp [WTp] at h
-    rename_i b
-    cases b <;> simp [push, get, tagOf]
-  | .char, v, h => by
-    cases v <;> simp [WTp] at h
-    simp [push, get, char_roundtrip _ h]
-  | .string, v, h => by cases v <;> simp [WTp] at h; simp [push, get]
-  | .ordering, v, h => by
-    cases v <;> simp [WTp] at h
-    simp [push, get, tagOf, h]
-  | .option t, v, h => by
-    cases v <;> simp [WTp] at h
-    · simp [push, get, tagOf]
-    · simp [push, get, tagOf, fieldsOf, get_push t _ h]
-  | .result t e, v, h => by
-    cases v <;> simp [WTp] at h
-    · simp [push, get, tagOf, fieldsOf, get_push t _ h]
-    · simp [push, get, tagOf, fieldsOf, get_push e _ h]
-  | .vec t, v, h => by
-    cases v <;> simp [WTp] at h
-    rename_i vs
-    obtain ⟨r, hr⟩ := mkArray_shape (pushL vs)
-    have hm := mapMOpt_pushL (fun x => get t x) vs (fun w hw => get_push t w (h w hw))
-    simp [push, hr, get, hm]
-  | .tuple ts, v, h => by
-    cases v <;> simp [WTp] at h
-    rename_i vs
-    have hl := WTps_length ts vs h
-    have hg := getTs_push ts vs [] h
-    simp at hg
-    simp [push, get, tagOf, fieldsOf, pushL_length, hl, hg]
-  | .newtype t, v, h => by
-    cases v <;> simp [WTp] at h
-    simp [push, get, get_push t _ h]
-  | .tstruct ts, v, h => by
-    cases v <;> simp [WTp] at h
-    rename_i vs
-    have hg := getTs_push ts vs [] h
-    simp at hg
-    simp [push, get, tagOf, fieldsOf, hg]
-  | .ustruct, v, h => by cases v <;> simp [WTp] at h; simp [push, get]
-  | .enum n vars, v, h => by
-    cases v <;> simp [WTp] at h
-    rename_i i p
-    have hv := getVariant_push vars i p h i
-    rcases WTpv_payload vars i p h with rfl | ⟨vs, rfl⟩
-    · have ht : tagOf (push (.var i .vunit)) = some i := by simp [push, tagOf]
-      simp only [get, ht, hv]
-    · have ht : tagOf (push (.var i (.vtuple vs))) = some i := by simp [push, tagOf]
-      simp only [get, ht, hv]
-  | .map _, v, h => by cases v <;> simp [WTp] at h
-  | .struct _, v, h => by cases v <;> simp [WTp] at h
-  | .vunit, v, h => by cases v <;> simp [WTp] at h
-  | .vtuple _, v, h => by cases v <;> simp [WTp] at h
-  | .vstruct _, v, h => by cases v <;> simp [WTp] at h
-theorem getTs_push : ∀ (ts : List TCode) (vs : List Val) (pre : List GV), WTps ts vs = true →
-    getTs ts (pre ++ pushL vs) pre.length = some vs
-  | [], [], pre, _ => by simp [pushL, getTs]
-  | t :: ts, v :: vs, pre, h => by
-    simp [WTps] at h
-    have h1 := get_push t v h.1
-    have h2 := getTs_push ts vs (pre ++ [push v]) h.2
-    simp at h2
-    simp [pushL, getTs, h1, h2]
-  | [], _ :: _, _, h => by simp [WTps] at h
-  | _ :: _, [], _, h => by simp [WTps] at h
-theorem getVariant_push : ∀ (vars : List TCode) (i : Nat) (p : Val), WTpv vars i p = true →
-    ∀ j, getVariant vars i (push (.var j p)) = some p
-  | [], i, p, h => by simp [WTpv] at h
-  | c :: vars, 0, p, h => by
-    intro j
-    cases c <;> cases p <;> simp [WTpv] at h
-    · simp [push, getVariant]
-    · rename_i ts vs
-      have hg := getTs_push ts vs [] h
-      simp at hg
-      simp [push, getVariant, fieldsOf, hg]
-  | c :: vars, i + 1, p, h => by
-    intro j
-    have h' : WTpv vars i p = true := by
-      cases c <;> cases p <;> simp_all [WTpv]
-    simpa [getVariant] using getVariant_push vars i p h' j
-end
 
 end GluonModel.Marshal.Proofs
